@@ -112,6 +112,10 @@ def generate(rng, seed, part):
             k = rng.randint(1, min(3, len(entries) - nxt))
             ops.append({"op": "deliver", "idx": list(range(nxt, nxt + k)), "how": rng.choice(["fill", "fill_n"])})
             nxt += k
+        elif r < 0.27:
+            ops.append({"op": "transform", "how": rng.choice(["merge", "imul", "idiv", "set_dtype", "normalize",
+                                                              "set_meta", "iadd_self", "set_adaptive_off"]),
+                        "arg": rng.randrange(64)})
         elif r < 0.40:
             ops.append({"op": "save", "path": rng.choice(PATHS), "via": rng.choice(["save_json", "to_json"]),
                         "indent": rng.choice([None, None, 2])})
@@ -197,6 +201,39 @@ def make_node(cfg, entries):
     for k, v in cfg.get("meta", {}).items():
         h.meta_data[k] = v
     return h
+
+
+def transform(cfg, h, op):
+    """In-place change of a live node (so that saved objects have varied internal states)."""
+    from physt.histogram_collection import HistogramCollection
+
+    targets = h.histograms if isinstance(h, HistogramCollection) else [h]
+    how, arg = op["how"], op["arg"]
+    for t in targets:
+        if how == "merge":
+            if isinstance(h, HistogramCollection) or any(s < 2 for s in t.shape):
+                return False
+            t.merge_bins(2, axis=arg % t.ndim, inplace=True)
+        elif how == "imul":
+            t *= [2, 0.5, 3][arg % 3]
+        elif how == "idiv":
+            t /= [2, 4][arg % 2]
+        elif how == "set_dtype":
+            t.set_dtype([np.float64, np.float32, np.float64][arg % 3])
+        elif how == "normalize":
+            if not t.total > 0:
+                return False
+            t.normalize(inplace=True)
+        elif how == "set_meta":
+            t.meta_data[f"k{arg % 3}"] = [arg, "v", {"n": None}]
+            t.title = f"t{arg % 5}"
+        elif how == "iadd_self":
+            t += t.copy()
+        elif how == "set_adaptive_off":
+            if isinstance(h, HistogramCollection) or not t.is_adaptive():
+                return False
+            t.set_adaptive(False)
+    return True
 
 
 def deliver(cfg, entries, h, op):
@@ -323,6 +360,18 @@ def execute(plan, ctx):
                     ctx.probe("deliver_failed:" + type(res if not ok else res2).__name__)
                     return
                 log.append(op)
+            elif o == "transform":
+                if klass == "cylindrical_surface" and op["how"] in ("merge",):
+                    continue
+                ok, res = attempt(transform, cfg, acc, op)
+                ok2, res2 = attempt(transform, cfg, replica, op)
+                ctx.ev("src", f"transform:{op['how']}", None, "ok" if ok else exc_tag(res))
+                ctx.abstract("transform", op["how"], ok)
+                if not ok or not ok2:
+                    ctx.probe(f"transform_failed:{op['how']}:" + type(res if not ok else res2).__name__)
+                    return
+                if res:
+                    log.append(op)
             elif o == "save":
                 path = op["path"]
                 existed = fs.exists(path)
@@ -499,7 +548,10 @@ def execute(plan, ctx):
                     todo = list(log)
                     ckpt = None
                 for d in todo:
-                    ok, res = attempt(deliver, cfg, entries, acc, d)
+                    if d["op"] == "transform":
+                        ok, res = attempt(transform, cfg, acc, d)
+                    else:
+                        ok, res = attempt(deliver, cfg, entries, acc, d)
                     if not ok:
                         ctx.violation("C08/resume", f"C08/resume-delivery-raised/{klass}/{exc_tag(res)}",
                                       f"after restart, re-delivering the stream to the restored histogram raised {res!r}")
